@@ -209,6 +209,19 @@ class Verifier:
                             'postcondition)', c, case)
         return g
 
+    def _satisfiable(self, hyps, inputs):
+        """Vacuity guard: the hypotheses have a model.  Quantified hypotheses can make the solver
+        slow to *build* a model; a model of the hypotheses plus "every length / integer input is
+        tiny" is a model of the hypotheses, so that easier query is tried first."""
+        small = [z3.And(t >= 0, t <= 1) for path, t in inputs
+                 if is_z3(t) and z3.is_int(t)]
+        if small:
+            r, _, _ = solve.check(list(hyps) + small, timeout_s=min(5, self.timeout_s))
+            if r == 'sat':
+                return 'sat'
+        r, _, _ = solve.check(list(hyps), timeout_s=self.timeout_s)
+        return r
+
     def _param_nodes(self, fdef):
         a = fdef.args
         return [x.arg for x in a.posonlyargs + a.args + a.kwonlyargs]
@@ -244,7 +257,7 @@ class Verifier:
         for r in c.requires:
             st.assume(ex.eval_cl(r, st))
         pre = st.hyps()
-        res, _, _ = solve.check(pre, timeout_s=self.timeout_s)
+        res = self._satisfiable(pre, inputs)
         if res != 'sat':
             return (False, 0)
         paths = ex.run_function(fdef, st, cls=c.cls)
@@ -336,7 +349,7 @@ class Verifier:
             st.assume(ex.eval_cl(r, s2))
             for f in s2.facts:
                 st.fact(f)
-        res, _, _ = solve.check(st.hyps(), timeout_s=self.timeout_s)
+        res = self._satisfiable(st.hyps(), inputs)
         if res != 'sat':
             return (False, 0)
         extra_names = set(c.relate.get('extra', {}))
@@ -442,7 +455,7 @@ class Verifier:
             leaves(name, v, inputs)
         for r in c.requires:
             st.assume(ex.eval_cl(r, st))
-        res, _, _ = solve.check(st.hyps(), timeout_s=self.timeout_s)
+        res = self._satisfiable(st.hyps(), inputs)
         if res != 'sat':
             return (False, 0)
         # initial values (arrays: snapshot of the element function) for frame / relation clauses
@@ -527,7 +540,7 @@ class Verifier:
         env0 = dict(st.env)
         for r in c.requires:
             st.assume(ex.eval_cl(r, st))
-        res, _, _ = solve.check(st.hyps(), timeout_s=self.timeout_s)
+        res = self._satisfiable(st.hyps(), inputs)
         if res != 'sat':
             return (False, 0)
         normal = 0
